@@ -3,6 +3,8 @@
    mapped to OCaml's built-ins); N, positive, nat stay the extracted inductive types. *)
 Require Extraction.
 Require ExtrOcamlBasic.
-From Pika Require Import Base.Conc Model.IndexQueue.
+From Pika Require Import Base.Conc Model.IndexQueue Model.DequeSpec Model.Deque Model.DequeWitness.
 Extraction Language OCaml.
-Extraction "m.ml" iq_trace iq_init iq_locals iq_run popped seq_pop.
+Extraction "m.ml" iq_trace iq_init iq_locals iq_run popped seq_pop
+  dq_trace dq_init dq_locals dq_solo dq_done dq_results dq_obs pushed_vals popped_vals spec_run
+  aba_k aba_progs aba_sched.
